@@ -615,6 +615,14 @@ def main():
             log(f"  obligation {h['name']}: " + "; ".join(f["description"][:160] for f in real[:3]))
             viol_out.append({"obligation": h["name"], "replay": rp,
                              "replayed_natively": info.get("replayed_natively", False)})
+        # A listed finding that was demonstrated natively but whose twin obligation is outside the
+        # verifier's reach (marked "native_only" in known_findings.json) is still reported on
+        # every run: the file, not the verifier, is what makes it a known finding.
+        for kf in known["findings"]:
+            if kf["property"] == prop and kf.get("native_only"):
+                ln = f"KNOWN-FINDING: property={prop} {kf['what']}"
+                if ln not in known_lines:
+                    known_lines.append(ln + " [shown natively; its obligation is undecided under CBMC]")
         for ln in sorted(set(known_lines)):
             log(ln)
         for u in undecided:
